@@ -975,6 +975,219 @@ def inline_hof(fn_text, spec, rel, log):
     return ''.join(out)
 
 
+R32_MACROS = {'matches', 'assert', 'assert_eq', 'assert_ne', 'debug_assert', 'debug_assert_eq', 'debug_assert_ne', 'panic', 'unreachable',
+              'unimplemented', 'todo', 'format', 'vec', 'trace', 'debug', 'info', 'warn', 'error'}
+
+
+def mod_prefix(rel, sel):
+    """Module part of an item selector (`m::Type::f` -> `m::`), resolved like find_item does: R32 looks a helper up in the module of
+    the fn that calls it."""
+    scope = load_file(rel)[3]; segs = sel.split('::'); pre = ''
+    while len(segs) > 1:
+        m = [x for x in scope if x.kind == 'mod' and x.name == segs[0] and not x.cfg_test]
+        if not m: break
+        scope = m[0].children; pre += segs[0] + '::'; segs = segs[1:]
+    return pre
+
+
+def call_sites(ct, name, form):
+    """Token indexes of the calls of `name` in one of three forms: 'free' `name(..)`, 'method' `RECV.name(..)`,
+    'assoc' `Type::name(..)` / `Self::name(..)` (shared by R32 and its guard in vp/run.py)."""
+    out = []
+    for i in range(1, len(ct) - 1):
+        if not (ct[i].kind == 'id' and ct[i].text == name and ct[i + 1].text == '('):
+            continue
+        p = ct[i - 1]
+        if p.text == '.':
+            f = 'method'
+        elif p.text == ':' and i > 1 and ct[i - 2].text == ':':
+            f = 'assoc'
+        elif p.kind == 'id' and p.text == 'fn':
+            continue
+        else:
+            f = 'free'
+        if f == form:
+            out.append(i)
+    return out
+
+
+def inline_helper(fn_text, rel, cfile, sel, form, caller_self, base_line, log):
+    """R32 (helper inlined at its call sites; automatic, driven by vp/run.py like R31): a change moved lines of a contracted fn
+    into a NEW small fn/method of the same source file, which the sidecar does not list, so Verus reports an unknown name.
+    Every call  name(A..) | Type::name(A..) | Self::name(A..) | RECV.name(A..)  in the extracted text is replaced by
+        ({ let p1: T1 = A1; ..; let __r32: RET = BODY[self := RECV]; __r32 })      (no `let` for an argument that is the parameter's own name)
+    with BODY the helper's own body, verbatim from the working tree (beta reduction; the caller keeps its contract, the sidecar
+    is not consulted).  Meaning is kept iff: the helper is a plain non-generic, non-async fn whose parameters are `name: T`
+    (plus self/&self/&mut self); its body has no `return`, `?`, `.await`, nested fn, recursion, or macro that may hide control flow
+    (they would leave a different fn); RECV is a place expression without side effects (identifier / field path), so it may
+    be named several times and after the arguments (two-phase borrow order); an argument does not mention an earlier
+    parameter's name, and RECV's root is not bound in the helper.  Every condition is checked; else SpecError('R32-REFUSED..')
+    and the caller is left exactly as it was.  Returns (new text, degrade notes)."""
+    citem, cimp, csrc = find_item(cfile, 'fn', sel)
+    cname = citem.name
+    ctx = Text(csrc, citem.decl_start, citem.end, cfile)
+    cfp = fn_parts(ctx)
+    cct = ctx.ct
+    where = f'{cfile}:{rl.line_of(csrc, citem.decl_start)}-{rl.line_of(csrc, citem.end)}'
+
+    def refuse(why):
+        raise SpecError(f'R32-REFUSED: helper {sel} ({where}): {why}')
+
+    if any(t.kind == 'id' and t.text in ('async', 'unsafe', 'const', 'extern') for t in cct[:cfp['fn']]):
+        refuse('async/unsafe/const/extern fn')
+    if cct[cfp['fn'] + 2].text == '<' or cfp['where'] is not None or (cimp is not None and cimp.header.strip() != cimp.self_type):
+        refuse('generic fn or impl')
+    # ---- parameters
+    params = []; recv_kind = None
+    k = cfp['popen'] + 1
+    while k < cfp['pclose']:
+        j = k; depth = 0
+        while j < cfp['pclose'] and not (cct[j].text == ',' and depth == 0):
+            if cct[j].kind == 'punct' and (cct[j].text in rl.OPEN or cct[j].text == '<'): depth += 1
+            elif cct[j].kind == 'punct' and (cct[j].text in rl.CLOSE or (cct[j].text == '>' and cct[j - 1].text != '-')): depth -= 1
+            j += 1
+        ptxt = ' '.join(t.text for t in cct[k:j])
+        if not params and recv_kind is None and ptxt in ('self', '& self', '& mut self'):
+            recv_kind = {'self': 'value', '& self': 'ref', '& mut self': 'mut'}[ptxt]
+        else:
+            q = k; mut = ''
+            if cct[q].text == 'mut': q += 1; mut = 'mut '
+            if not (cct[q].kind == 'id' and cct[q].text not in ('self', '_') and cct[q + 1].text == ':' and j > q + 2):
+                refuse(f'parameter `{ptxt}` is not `name: T`')
+            if any(t.kind == 'life' or (t.kind == 'id' and t.text in ('impl', 'dyn')) for t in cct[q + 2:j]):
+                refuse(f'parameter type of `{cct[q].text}` has a lifetime / impl / dyn')
+            params.append((mut + cct[q].text, cct[q].text, (cct[q + 2].start, cct[j - 1].end)))
+        k = j + 1
+    if (form == 'method') != (recv_kind is not None):
+        refuse(f'call form `{form}` does not fit the receiver of the helper')
+    ret = None
+    if cfp['arrow'] is not None:
+        e_idx = cfp['bopen'] - 1
+        ret = (cct[cfp['arrow'] + 2].start, cct[e_idx].end)
+        if any(t.kind == 'life' or t.text == '!' or (t.kind == 'id' and t.text in ('impl', 'dyn')) for t in cct[cfp['arrow'] + 2:e_idx + 1]):
+            refuse('return type has a lifetime / impl / dyn / !')
+    # ---- body
+    blo, bhi = cfp['bopen'], cfp['bclose']
+    notes = []
+    for i in range(blo + 1, bhi):
+        t = cct[i]
+        if t.kind == 'id' and t.text in ('return', 'await', 'async', 'yield', 'fn', 'become'):
+            refuse(f'body contains `{t.text}`')
+        if t.kind == 'id' and t.text == cname:
+            refuse('body mentions its own name (recursion)')
+        if t.kind == 'punct' and t.text == '?':
+            refuse('body contains `?`')
+        if t.kind == 'id' and cct[i + 1].text == '!' and cct[i + 2].text in rl.OPEN and t.text not in R32_MACROS:
+            refuse(f'macro `{t.text}!` may hide control flow')
+        if t.kind == 'id' and t.text in ('for', 'while', 'loop', 'try_for_each') and not notes:
+            notes.append(f'R32 inlined helper {sel} contains a loop: @loop numbering / invariants of the sidecar may not apply')
+        if t.text == '|' and (cct[i - 1].text in ('(', ',', '=', '{', ';', '[', 'move')) and not notes:
+            notes.append(f'R32 inlined helper {sel} contains a closure: opaque to Verus unless a sidecar annotation happens to fit')
+    body_ids = {t.text for i, t in enumerate(cct[blo:bhi + 1]) if t.kind == 'id' and cct[blo + i - 1].text != '.'}
+    pnames = [n for _m, n, _t in params]
+    if '__r32' in body_ids or '__r32' in pnames:
+        refuse('name __r32 in use')
+    # free fn / path heads the body refers to must not be captured by a binding of the caller
+    heads = {t.text for i, t in enumerate(cct[blo:bhi]) if t.kind == 'id' and t.text not in RUST_KW and not t.text[0].isupper()
+             and cct[blo + i - 1].text not in ('.', ':')
+             and (cct[blo + i + 1].text == '(' or (cct[blo + i + 1].text == ':' and cct[blo + i + 2].text == ':'))} - set(pnames)
+
+    def ty_text(span, same_self):
+        s = csrc[span[0]:span[1]]
+        if not same_self and cimp is not None:
+            s = re.sub(r'\bSelf\b', cimp.self_type, s)
+        return s
+
+    ftx = Text(fn_text, 0, len(fn_text), rel)
+    ct = ftx.ct
+    same_self = (cimp is None) or (caller_self == cimp.self_type)
+    for i, t in enumerate(ct[:-2]):
+        if t.kind == 'id' and t.text in heads and i > 1 and ct[i - 1].text != '.' and ct[i + 1].text not in ('(', '!') \
+                and not (ct[i + 1].text == ':' and ct[i + 2].text == ':') and not (ct[i - 1].text == ':' and ct[i - 2].text == ':'):
+            refuse(f'`{t.text}` names an item in the helper and a variable in the caller (capture)')
+    edits = []
+    for i in call_sites(ct, cname, form):
+        close = rl.match_close(ct, i + 1)
+        recv = 'self'
+        start = i
+        if form == 'method':
+            b = i - 2
+            if not (ct[b].kind == 'id' and ct[b].text not in RUST_KW - {'self'}):
+                refuse('receiver is not a place expression (identifier / field path)')
+            while b >= 2 and ct[b - 1].text == '.' and ct[b - 2].kind in ('id', 'num') and ct[b - 2].text not in RUST_KW - {'self'} \
+                    and not (ct[b - 2].kind == 'num' and '.' in ct[b - 2].text):
+                b -= 2
+            if ct[b].kind != 'id' or ct[b - 1].text == '.' or (ct[b - 1].text == ':' and ct[b - 2].text == ':'):
+                refuse('receiver is not a place expression (identifier / field path)')
+            start = b
+            recv = fn_text[ct[b].start:ct[i - 2].end]
+            root = ct[b].text
+            if root != 'self' and (root in body_ids or root in pnames):
+                refuse(f'receiver root `{root}` is bound or used in the helper (capture)')
+            if recv_kind == 'mut' and recv != 'self' and any(
+                    cct[q].text == 'self' and cct[q + 1].text != '.' for q in range(blo, bhi)):
+                refuse('`&mut self` helper uses `self` as a value and the receiver is not `self`')
+        elif form == 'assoc':
+            b = i - 3
+            if not (ct[b].kind == 'id' and ct[b].text in ('Self', cimp.self_type if cimp else '')) or (ct[b - 1].text == ':' and ct[b - 2].text == ':') \
+                    or ct[b - 1].text == '>' or (ct[b].text == 'Self' and not same_self):
+                refuse('call path is not `Self::name` / `Type::name` of the helper\'s own type')
+            start = b
+        # arguments
+        args = []; a0 = i + 2; d = 0
+        for j in range(i + 2, close + 1):
+            if j == close or (ct[j].text == ',' and d == 0):
+                if j > a0: args.append((a0, j))
+                a0 = j + 1
+            elif ct[j].kind == 'punct' and ct[j].text in rl.OPEN: d += 1
+            elif ct[j].kind == 'punct' and ct[j].text in rl.CLOSE: d -= 1
+            elif d == 0 and ct[j].text in ('|', '<') and (ct[j].text == '|' or (ct[j - 1].text == ':' and ct[j - 2].text == ':')):
+                refuse('argument with a closure literal / turbofish')
+        if len(args) != len(params):
+            refuse(f'{len(args)} arguments for {len(params)} parameters')
+        # an argument that is the parameter's own name (`world` for `world: &mut World`) needs no binding: the body then names the
+        # caller's variable itself (so a hint with `old(world)` that moved along still applies); not for `mut p: T` (a fresh copy)
+        ident = [b_ == a + 1 and ct[a].kind == 'id' and ct[a].text == decl for (decl, _n, _ty), (a, b_) in zip(params, args)]
+        for n_, (a, b_) in enumerate(args):
+            for q in range(a, b_):
+                if ct[q].kind == 'id' and ct[q].text in [pn for pn, idt in zip(pnames[:n_], ident) if not idt] and ct[q - 1].text != '.':
+                    refuse(f'argument {n_ + 1} mentions `{ct[q].text}`, the name of an earlier parameter (capture)')
+        lets = ''.join(f'let {decl}: {ty_text(ty, same_self)} = {fn_text[ct[a].start:ct[b_ - 1].end]}; '
+                       for (decl, _n, ty), (a, b_), idt in zip(params, args, ident) if not idt)
+        # body, `self` := RECV
+        out = []; pos = cct[blo].start
+        for q in range(blo, bhi + 1):
+            tk = cct[q]
+            rep = None
+            if tk.kind == 'id' and tk.text == 'self' and recv != 'self':
+                rep = recv if (cct[q + 1].text == '.' or recv_kind == 'value') else f'(&{recv})'
+            elif tk.kind == 'id' and tk.text == 'Self' and not same_self:
+                rep = cimp.self_type
+            if rep is not None:
+                out.append(csrc[pos:tk.start]); out.append(rep); pos = tk.end
+        out.append(csrc[pos:cct[bhi].end])
+        body = ''.join(out)
+        if ret is not None:
+            repl = '({ ' + lets + f'let __r32: {ty_text(ret, same_self)} = ' + body + '; __r32 })'
+        else:
+            repl = '({ ' + lets + body + ' })'
+        edits.append((ct[start].start, ct[close].end, repl))
+        log.append({'rule': 'R32', 'at': f'{rel}:{base_line + fn_text.count(chr(10), 0, ct[start].start)}', 'text': fn_text[ct[start].start:ct[close].end][:160],
+                    'note': f'call of helper {sel} ({where}), unknown to the sidecar, replaced by its body (arguments let-bound'
+                            + (f', self := {recv}' if form == 'method' else '') + ')'})
+    if not edits:
+        refuse(f'no `{form}` call site in {rel}')
+    edits.sort()
+    for (s1, e1, _r1), (s2, _e2, _r2) in zip(edits, edits[1:]):
+        if s2 < e1:
+            refuse('nested calls of the helper')
+    out = []; pos = 0
+    for s_, e_, r_ in edits:
+        out.append(fn_text[pos:s_]); out.append(r_); pos = e_
+    out.append(fn_text[pos:])
+    return ''.join(out), notes
+
+
 def label_lines(text, labels, base_line, region):
     """Replace [Cxx.label] markers by comments and record label -> line range within text."""
     out_lines = []
@@ -1007,6 +1220,21 @@ class Gen:
         self.sources = []      # functions under contract: file:lines sha
         self.degraded = {}         # region -> lost hint anchors (@before/@after): hint skipped, failures there are undecided
         self.inject_false = None   # vacuity self-test: region name whose body gets `assert(false)` at its end
+        self.inline = {}           # R32 requests of vp/run.py: sidecar line of the @item -> [(file, helper selector, call form)]
+        self.r32_refused = []
+
+    def apply_r32(self, text, it, imp, base_line, log, notes):
+        """R32: the requested helpers, in request order (a later one may be called from the body of an earlier one).  A refused
+        request leaves the text as it is."""
+        for (cfile, sel, form) in self.inline.get(it.line, []):
+            try:
+                text, nn = inline_helper(text, it.file, cfile, sel, form, imp.self_type if imp else '', base_line, log)
+                notes += nn
+            except SpecError as e:
+                self.r32_refused.append(str(e))
+            except Exception as e:      # text the rule cannot parse: refused as well
+                self.r32_refused.append(f'R32-REFUSED: helper {sel}: {type(e).__name__}: {e}')
+        return text
 
     def emit(self, text):
         self.out.append(text)
@@ -1053,11 +1281,20 @@ class Gen:
         item, imp, src = find_item(it.file, it.kind, it.sel)
         tx = Text(src, item.start, item.end, it.file)
         hof_log = []
+        r32_notes = []
+        src_orig, l0_orig, l1_orig = src, rl.line_of(src, item.decl_start), rl.line_of(src, item.end)
         if it.kind == 'fn' and it.opts.get('hof'):
             # R28: the fn text with the calls of a higher-order helper replaced by the helper's body; every later step
             # (annotations, @loop numbering) works on this text.  Line numbers in the rewrite log then refer to it.
-            src_orig, l0_orig, l1_orig = src, rl.line_of(src, item.decl_start), rl.line_of(src, item.end)
             src = inline_hof(src[item.start:item.end], it.opts['hof'], it.file, hof_log)
+        if it.kind == 'fn' and self.inline.get(it.line):
+            # R32: calls of same-file helpers the sidecar does not know replaced by the helpers' bodies (same mechanics as R28)
+            r32_log = []
+            new = self.apply_r32(src if hof_log else src[item.start:item.end], it, imp, rl.line_of(src_orig, item.start), r32_log, r32_notes)
+            if r32_log:
+                src = new
+                hof_log = hof_log + r32_log
+        if hof_log:
             tx = Text(src, 0, len(src), it.file)
             tx.log += hof_log
         strip_common(tx, extra_keep=tuple(it.opts.get('keep', '').split(',')), drop_derive=tuple(it.opts.get('noderive', '').split(',')),
@@ -1117,6 +1354,8 @@ class Gen:
         if it.opts.get('key'):
             fkey = it.opts['key']     # obligation/region name only (several trait impls whose self types share a last token)
         region = f'{u.name}.{fkey}'
+        for n_ in r32_notes:
+            self.degraded.setdefault(region, []).append(n_)
         pending_inserts = []   # (byte_pos, text, tag)
         hoisted = []
         split_anns = []
@@ -1602,7 +1841,7 @@ class Gen:
             if imp.trait_name and not it.opts.get('inherent'):
                 for c in imp.children:
                     if c.kind == 'type':
-                        self.emit('    ' + src[c.decl_start:c.end] + '\n')
+                        self.emit('    ' + src_orig[c.decl_start:c.end] + '\n')
             # @implspec: spec-fn definitions of a contract trait (declared in @spec) for this impl; Verus wants them in
             # the same impl block as the method.  Only `spec fn` items are accepted.
             for a in it.anns:
@@ -1626,7 +1865,7 @@ class Gen:
         if imp is not None:
             self.emit('}\n')
         self.regions.append({'name': region, 'line0': base, 'line1': self.nline - 1, 'kind': 'fn',
-                             'props': it.props, 'src': f'{it.file}:{l0}-{l1}', 'sha': sha, 'fn': fkey})
+                             'props': it.props, 'src': f'{it.file}:{l0}-{l1}', 'sha': sha, 'fn': fkey, 'iline': it.line, 'sel': it.sel})
         self.sources.append({'fn': fkey, 'src': f'{it.file}:{l0}-{l1}', 'sha256': sha})
         self.dropped += tx.log
 
@@ -1891,6 +2130,14 @@ class Gen:
         synthetic = sig + body + '\n'
         l0, l1 = rl.line_of(src, body_s), rl.line_of(src, body_e)
         sha = hashlib.sha256(body.encode()).hexdigest()[:16]
+        r32_log, r32_notes = [], []
+        if self.inline.get(it.line):
+            # R32 on the lifted text (see emit_item)
+            new = self.apply_r32(synthetic, it, imp, l0, r32_log, r32_notes)
+            if r32_log:
+                synthetic = new
+                sha = hashlib.sha256(synthetic.encode()).hexdigest()[:16]
+                self.dropped += r32_log
         # Re-lex the synthetic fn so that the normal fn pipeline (annotations) applies.
         fake_rel = it.file
         sub = Text(synthetic, 0, len(synthetic), fake_rel)
@@ -1904,6 +2151,8 @@ class Gen:
         fp = fn_parts(sub)
         sct = sub.ct
         region = f'{self.u.name}.{name}'
+        for n_ in r32_notes:
+            self.degraded.setdefault(region, []).append(n_)
         inserts = []
         for a in it.anns:
             if a.kind == 'ret':
@@ -2004,7 +2253,7 @@ class Gen:
                 buf.append(text2); cur_line += text2.count('\n')
         self.emit(''.join(buf))
         self.regions.append({'name': region, 'line0': base, 'line1': self.nline - 1, 'kind': 'fn',
-                             'props': it.props, 'src': f'{it.file}:{l0}-{l1}', 'sha': sha, 'fn': name})
+                             'props': it.props, 'src': f'{it.file}:{l0}-{l1}', 'sha': sha, 'fn': name, 'iline': it.line, 'sel': it.sel})
         self.sources.append({'fn': name, 'src': f'{it.file}:{l0}-{l1}', 'sha256': sha})
         self.dropped.append({'rule': 'R5b' if it.opts.get('block') else 'R5', 'at': f'{it.file}:{l0}', 'text': f'{call}(|{cparam}| ..)', 'note': f'{"statement block" if it.opts.get("block") else "closure body"} lifted to fn {name}({params})'})
         self.dropped += sub.log
@@ -2067,7 +2316,7 @@ class Gen:
         return ''.join(self.out)
 
 
-def generate(unit_name, inject_false=None, extra_consts=None):
+def generate(unit_name, inject_false=None, extra_consts=None, inline=None):
     path = os.path.join(VERIF, 'specs', 'units', unit_name + '.vspec')
     u = parse_vspec(path)
     # R31 (automatic, driven by vp/run.py): a `const NAME` of the same source file that extracted text refers to but the sidecar
@@ -2077,6 +2326,8 @@ def generate(unit_name, inject_false=None, extra_consts=None):
         u.parts.insert(first_item, ('item', ItemSpec(file=cfile, kind='const', sel=cname, props=[], opts={'auto': '1'})))
     g = Gen(u)
     g.inject_false = inject_false
+    for (iline, cfile, sel, form) in (inline or []):     # R32 (automatic, driven by vp/run.py): see inline_helper
+        g.inline.setdefault(iline, []).append((cfile, sel, form))
     text = g.build()
     if inject_false:
         # Verus wants `hide(..)` headers at the very beginning of a fn body: move them in front of the injected wrapper
